@@ -137,7 +137,7 @@ func NewMeta() *Meta {
 func (m *Meta) Count(k string)       { m.Distribution[k]++ }
 func (m *Meta) CountN(k string, n int) { m.Distribution[k] += n }
 func (m *Meta) Violation(clause string, input any, detail string) {
-	if len(m.Violations) < 50 {
+	if len(m.Violations) < 400 {
 		m.Violations = append(m.Violations, map[string]any{"clause": clause, "input": input, "detail": detail})
 	}
 }
@@ -191,4 +191,29 @@ func ReplayInput(v any) bool {
 		panic(fmt.Sprintf("replay input: %v", err))
 	}
 	return true
+}
+
+// CorpusInputs returns the "input" fields of the replay files under
+// $VERIF_CORPUS (minimised failures / known-finding witnesses; they run first).
+func CorpusInputs() []json.RawMessage {
+	dir := os.Getenv("VERIF_CORPUS")
+	if dir == "" {
+		return nil
+	}
+	files, _ := filepath.Glob(filepath.Join(dir, "*.json"))
+	sort.Strings(files)
+	var r []json.RawMessage
+	for _, f := range files {
+		b, err := os.ReadFile(f)
+		if err != nil {
+			continue
+		}
+		var w struct {
+			Input json.RawMessage `json:"input"`
+		}
+		if json.Unmarshal(b, &w) == nil && len(w.Input) > 0 {
+			r = append(r, w.Input)
+		}
+	}
+	return r
 }
